@@ -135,15 +135,148 @@ def run(res, tier, seed):
     res.cov["rule"] = ("one shortest operation history per transition (pre-state, operation) of the TLC state graph of "
                        "MC_NodeList (MaxIdx=%d MaxLen=%d MaxHist=%d), replayed on native / Xerces-built / Xerces-lazy trees; "
                        "non-trivial = some in-document-order insertion did not append at the end or met a duplicate; "
-                       "distinct by hash of (tree kind, recorded events)" % (gidx, glen, ghist))
+                       "distinct by hash of (tree kind, recorded events); besides: the namespace-node order family (one event per context "
+                       "element: the namespace axis, its unions with itself / single namespace nodes / attributes / children / self / parent, filtered subsets, "
+                       "all of which must be delivered in the one order the axis shows, Trace_C12ns)" % (gidx, glen, ghist))
+    nns, nns_ok = nsorder_family(res, wd, quick, seed)
+    res.cov["evaluations"] += nns
+    res.cov["traces_validated_against_impl"] += nns_ok
     for ex in execs[len(execs) // 2: len(execs) // 2 + 3]:
         res.sample(ex)
     res.assumptions += ["DOMServices::isNodeAfter is modelled by index comparison in NodeListImpl (DomOrder MC shows them equal)",
                         "documents used by the replay are fixed 3/4-node documents; the list algorithm only sees (document, index)"]
 
 
+def nsd_by_id(tree):
+    """node id (as xdm.flatten numbers them) -> set of prefixes declared on that element"""
+    out, k = {}, [0]
+
+    def go(n):
+        k[0] += 1
+        me = k[0]
+        if n["k"] == "elem":
+            out[me] = {p for p, u in n.get("nsd", [])}
+            k[0] += len(n.get("a", []))
+        for c in n.get("c", []):
+            go(c)
+    go(tree)
+    return out
+
+
+TRACE_NS = os.path.join(ROOT, "spec/trace/Trace_C12ns.tla")
+
+
+def nsorder_family(res, wd, quick, seed):
+    """namespace nodes: XPath 5.4 leaves their relative order to the implementation, but every node-set has to be delivered in ONE
+    order.  From each element of documents with 1-4 declarations per element: the namespace axis itself, unions with itself, with
+    single namespace nodes, attributes, children, self and the parent, and filtered subsets;
+    each observed as count() and name((expr)[k])."""
+    import random
+    import xdm, xpgen
+    from xpgen import path, step, bin_, fn, num, filt, t_name, T_ANY, T_NODE
+    from props import c02
+    rng = random.Random(seed)
+    docs = []
+    def el(depth, inherited):
+        nsd = [(pf, rng.choice(["urn:u", "urn:v", "urn:w"])) for pf in rng.sample(["a", "b", "c", "d"], rng.randint(0, 3))]
+        if rng.random() < 0.25:
+            nsd.append(("", rng.choice(["urn:u", "urn:d"])))
+        rng.shuffle(nsd)
+        dflt = dict(nsd).get("", inherited)          # an unprefixed element name is in the default namespace in scope
+        kids = [el(depth + 1, dflt) for _ in range(rng.randint(0, 2) if depth < 2 else 0)]
+        return xdm.E(rng.choice(["m", "n"]), *kids, a=[xdm.A(x, "1") for x in rng.sample(["x", "y"], rng.randint(0, 2))], nsd=nsd, u=dflt or "")
+    for k in range(6 if quick else 60):
+        docs.append(xdm.R(el(0, None)))
+    flats = [xdm.flatten(t) for t in docs]
+    declared = [nsd_by_id(t) for t in docs]
+
+    def declaring(fl, i, pf):
+        """the nearest ancestor-or-self of element i that carries a declaration of the prefix (0 for the implicit xml prefix)"""
+        d = flats.index(fl)
+        while i and fl["kind"][i - 1] == "elem":
+            if pf in declared[d].get(i, ()):
+                return i
+            i = fl["parent"][i - 1]
+        return 0
+    NSX = path([step("namespace", T_ANY, abbr=False)])
+    ATT = path([step("attribute", T_ANY)])
+    cases, plan = [], []
+    for d, fl in enumerate(flats):
+        for i in range(1, fl["n"] + 1):
+            if fl["kind"][i - 1] != "elem":
+                continue
+            prefixes = ["".join(map(chr, x[0])) for x in fl["ins"][i - 1]]
+            exprs = [NSX, bin_("|", NSX, NSX), bin_("|", ATT, NSX), bin_("|", NSX, ATT),
+                     bin_("|", NSX, path([step("child", T_ANY)])), bin_("|", path([step("self", T_NODE, abbr=False)]), NSX),
+                     bin_("|", path([step("namespace", T_ANY, bin_("=", fn("position"), fn("last")), abbr=False)]), NSX),
+                     bin_("|", bin_("|", path([step("child", T_ANY)]), ATT), NSX),
+                     filt(bin_("|", NSX, ATT), bin_("!=", fn("name"), xpgen.lit("x")))]
+            if fl["kind"][fl["parent"][i - 1] - 1] == "elem":
+                exprs.append(bin_("|", NSX, path([step("parent", T_NODE, abbr=False)])))
+            for pf in prefixes:
+                if pf:
+                    one = path([step("namespace", t_name(pf), abbr=False)])
+                    exprs += [bin_("|", one, NSX), bin_("|", NSX, one)]
+            bound = len(prefixes) + 8
+            for e in exprs:
+                plan.append((d + 1, i, e, bound))
+                cases.append((d + 1, i, 1, 1, fn("count", e), {}))
+                for k in range(1, bound + 1):
+                    cases.append((d + 1, i, 1, 1, fn("name", filt(e, num(k))), {}))
+    nwd = os.path.join(wd, "nsorder"); os.makedirs(nwd)
+    # count() through the number entry point, name() through the string entry point
+    counts, crashes1 = c02.run_cases(docs, flats, [c for c in cases if c[4]["name"] == "count"], nwd, mode="num", tag="nsc")
+    names, crashes2 = c02.run_cases(docs, flats, [c for c in cases if c[4]["name"] == "name"], nwd, mode="str", tag="nsn")
+    for c, err, rc in crashes1 + crashes2:
+        res.violation("evaluator process died (rc=%s) on %s: %s" % (rc, c["text"], err), [c])
+    cnt = {(e["doc"], e["ctx"], e["text"]): e for e in counts}
+    nam = {(e["doc"], e["ctx"], e["text"]): e for e in names}
+    events, by = [], {}
+    for d, i, e, bound in plan:
+        ce = cnt.get((d, i, xpgen.render(fn("count", e))))
+        if ce is None or "res" not in ce or ce["res"]["v"]["k"] != "fin":
+            res.violation("count(%s) failed at node %d of document %d: %s" % (xpgen.render(e), i, d, ce and ce.get("error")), [ce or {}]); continue
+        n = ce["res"]["v"]["m"] // 8
+        got, ok = [], n <= bound
+        for k in range(1, min(n, bound) + 1):
+            ne = nam.get((d, i, xpgen.render(fn("name", filt(e, num(k))))))
+            if ne is None or "res" not in ne:
+                ok = False; break
+            got.append(ne["res"]["v"][3:])            # the string entry point appends to "PRE"
+        if not ok:
+            res.violation("name((%s)[k]) failed at node %d of document %d" % (xpgen.render(e), i, d), [ce]); continue
+        ev = by.get((d, i))
+        if ev is None:
+            ev = by[(d, i)] = {"e": "NsOrder", "doc": d, "ctx": i, "pi": got, "decl": [declaring(flats[d - 1], i, "".join(map(chr, pf))) for pf in got], "obs": [],
+                               "xml": c02.doc_xml(docs[d - 1])}
+            events.append(ev)
+        ev["obs"].append({"expr": xpgen.strip_render_only(e), "text": xpgen.render(e), "n": n, "names": got})
+    dpath = os.path.join(nwd, "docs.ndjson")
+    vlib.write_ndjson(dpath, flats)
+    rejects, st = vlib.tlc_validate_sharded(TRACE_NS, events, tag="c12ns", env={"DOCS": dpath}, stateless=True, timeout=3000)
+    known = {k["key"]: k for k in vlib.known_findings(PROP)}
+    for rj in rejects:
+        ev = events[rj["line"]]
+        if rj["msg"].startswith("KNOWN nsNodeOrderedAtDeclaringElement") and "nsNodeOrderedAtDeclaringElement" in known:
+            res.known(known["nsNodeOrderedAtDeclaringElement"]); continue
+        res.violation("namespace nodes of node %d of document %d: %s" % (ev["ctx"], ev["doc"], rj["msg"][:400]), [dict(ev, flat=flats[ev["doc"] - 1])])
+    res.notes["namespace_order_contexts"] = len(events)
+    res.notes["namespace_order_observations"] = sum(len(e["obs"]) for e in events)
+    res.notes["namespace_order_contexts_with_3_or_more_nodes"] = sum(1 for e in events if len(e["pi"]) >= 3)
+    return len(events), len(events) - len(rejects)
+
+
 def replay(path):
     events = vlib.read_ndjson(path)
+    if events and events[0].get("e") == "NsOrder":
+        wd = vlib.workdir("c12replay-%d" % os.getpid())
+        dpath = os.path.join(wd, "docs.ndjson")
+        vlib.write_ndjson(dpath, [events[0]["flat"]])
+        evs = [{k: v for k, v in dict(ev, doc=1).items() if k not in ("flat", "xml")} for ev in events]
+        rejects, _ = vlib.tlc_validate_sharded(TRACE_NS, evs, shards=1, tag="c12nsreplay", env={"DOCS": dpath}, stateless=True)
+        for r in rejects:
+            print("REJECTED: %s" % r["msg"][:2000])
+        return 1 if rejects else 0
     rejects, _ = vlib.tlc_validate_sharded(TRACE, events, shards=1, tag="c12replay")
     for r in rejects:
         print("REJECTED line %d: %s" % (r["line"], r["msg"]))
